@@ -542,6 +542,35 @@ class ChartRules:
                      f"with the selection {'absent (None)' if val['no-selection'] else 'given'} and the pair {'in' if val['selected'] else 'not in'} it, "
                      f"the section must be {'skipped' if skip_want else 'built and stored'}; the code {'builds' if built else 'skips'} it "
                      f"(an empty selection is a selection: it selects nothing)")
+        # unknown sections are reported (once) and ignored; required ones are not reported
+        warns = [c for c in s.calls if c.fn == ("meth", "warning") and c.loops == (loop.id,)]
+        r.inst("unknown section -> exactly one logger.warning, nothing else")
+        if len(warns) != 1:
+            fail(r, ctx, f, loop.node, f"an unrecognised section must be reported with exactly one logger.warning in the routing loop; found {len(warns)}")
+        else:
+            wc = warns[0]
+            for kn, rq in ((False, False), (False, True), (True, False)):
+                val = {"known": kn, "required": rq, "no-selection": True, "selected": True}
+                try:
+                    on = all(eval_bool(a, atoms, val) == p for a, p in wc.cond if a[0] != "inloop" and (a, p) not in pre)
+                except UnknownAtom as u:
+                    fail(r, ctx, f, wc.node, f"the unknown-section report depends on `{show(u.term)[:120]}`, not only on the tag being neither an "
+                                             f"instrument header nor a required section")
+                    break
+                want_on = (not kn) and (not rq)
+                if on != want_on:
+                    fail(r, ctx, f, wc.node, f"a section that is {'an instrument header' if kn else ('a required section' if rq else 'unknown')} must "
+                                             f"{'be reported' if want_on else 'not be reported as unhandled'}; the code does the opposite")
+            # the 'required' test must be against the folded required tags
+            for a, p in wc.cond:
+                for t in subterms(a):
+                    if t[0] == "cmp" and t[1] == "in" and strip(t[2]) == tag and t[3] != table:
+                        try:
+                            rq_tags = ctx.fold.fold(t[3])
+                            if sorted(rq_tags) != sorted(REQUIRED.values()):
+                                fail(r, ctx, f, wc.node, f"the unknown-section test compares with {rq_tags}, not with the three required tags")
+                        except NotConstant:
+                            fail(r, ctx, f, wc.node, "the unknown-section test compares with a non-constant tag list")
         for u in unknown:
             fail(rs, ctx, f, bc.node, f"building a track depends on the condition `{show(u)[:160]}`, which is not one of: header in table; "
                                       f"want_tracks is None; pair in want_tracks")
